@@ -51,7 +51,7 @@ CHECKS = {
         assumptions=["membership operations are separated by quiescence and join times are distinct (as the property states)",
                      "the order in which members run their monitor rounds is whatever the timers give (sampled, not owned)",
                      "kubernetesStatefulSet (reads os.Hostname) and the Kubernetes lease itself are not reachable offline; only the numbering logic downstream of them is exercised"],
-        units=[rapid("TestC10_Couchbase", 1, 1, 4, 8), rapid("TestC10_Leader", 1, 1, 2, 8), rapid("TestC10_Relay", 300, 20000, 1, 4), rapid("TestC10_RegisterRPC", 300, 20000, 2, 8)],
+        units=[rapid("TestC10_Couchbase", 1, 1, 4, 8), rapid("TestC10_Leader", 1, 1, 2, 8), rapid("TestC10_Relay", 300, 20000, 1, 4), rapid("TestC10_RegisterRPC", 300, 20000, 2, 8), rapid("TestC10_Handover", 3000, 200000, 2, 8)],
         min_share=dict(any={"leader_rpc_failure": ["leader_cases", 0.02], "leader_follower_restart": ["leader_cases", 0.015]}),
     ),
     "C20": dict(
